@@ -17,10 +17,34 @@ PROPERTY = {
         Unit("c01_writers", "C17", "c01_writers.vrs", desc={}),
     ],
     "timeout": 900,
+    "extra_overlays": ["C01"],
     "kani": [
         Harness("c17_twin_add_value", "C17.twin.add_value", "BOUNDED", "rollback + count == cells with a carrier that writes <= 3 bytes (+ a nested cell) through the CellWriter API and fails nondeterministically, after 0..2 earlier values", bound="5 concrete shapes (0..2 earlier values, 0..3 bytes written before failing, custom / type-check failure), bytes symbolic", crate="scylla-cql-core", twin=True, functions=["scylla-cql-core/src/serialize/row.rs:SerializedValues::add_value"]),
+    ] + [
+        Harness(f"c17_read_{g}_carriers", f"C17.matrix.read.{g}", "PROVED-C", f"DeserializeValue::type_check of the {g} carriers ({c}) accepts a native column type iff the documentation table lists the pair; all 20 native types (loop-free, full domain)", crate="scylla-cql-core", functions=["scylla-cql-core/src/deserialize/value.rs:impl_strict_type!/exact_type_check! instances"])
+        for g, c in (("text", "String, &str"), ("text_ptr", "Box<str>, Arc<str>"), ("blob", "Vec<u8>, &[u8], Bytes"), ("bignum", "CqlVarint(Borrowed), CqlDecimal(Borrowed)"),
+                     ("misc", "IpAddr, CqlDuration, Uuid, CqlTimeuuid, Counter"), ("fixed", "bool, i8..i64, f32, f64, CqlDate, CqlTime, CqlTimestamp"))
+    ] + [
+        Harness(f"c17_bind_{g}_carriers", f"C17.matrix.bind.{g}", "PROVED-C", f"SerializeValue::serialize of the {g} carriers ({c}) succeeds iff the documentation table lists the pair, and a refused value writes no byte; all 20 native types", crate="scylla-cql-core", functions=["scylla-cql-core/src/serialize/value.rs:impl_serialize_via_writer!/exact_type_check! instances"])
+        for g, c in (("text", "str, String"), ("blob", "Vec<u8>, &[u8], [u8; N]"), ("bignum", "CqlVarintBorrowed, CqlDecimalBorrowed"), ("misc", "IpAddr, CqlDuration"))
+    ] + [
+        Harness(f"c17_nest_{n}", f"C17.matrix.nest.{n}", "PROVED-C", d + "; element native type symbolic over all 20", crate="scylla-cql-core")
+        for n, d in (("read_option_box_arc", "Option<i32>, Box<i32>, Arc<i32>, Option<Option<i32>> read a column iff i32 does"),
+                     ("read_vec", "Vec<i32> reads list<t>/set<t>/vector<t,2> iff i32 reads t; native and map columns refused"),
+                     ("read_vec_depth2", "Vec<Vec<i32>> reads list<list<t>> iff i32 reads t (mismatch at depth 2 refused)"),
+                     ("read_sets_maps", "BTreeSet<i32> reads set<k> iff i32 reads k; BTreeMap<i32,String> reads map<k,v> iff both do; list refused"),
+                     ("read_tuple", "(i32, String) reads tuple<a,b> iff both fields do; 1-tuple and native columns refused"),
+                     ("bind_option_box", "Some(7), &7, Box(7) bind iff i32 binds; refused => no byte written"))
+    ] + [
+        Harness(f"c17_shape_{k}", f"C17.matrix.shape.{k}", "PROVED-C", f"a {k} column is refused by native carriers, both reading (i32, String, Vec<u8>, Uuid) and binding (i32, str; no byte written)", crate="scylla-cql-core")
+        for k in ("list", "set", "map", "vector", "tuple", "udt")
+    ] + [
+        Harness(f"c01_{t}", f"C17.matrix.fixed.{t}", "PROVED-C", f"{t}: bind accepted iff documented, refused bind writes no byte, read accepted iff documented, wrong-width and null cells refused (every value, all 20 native types)", crate="scylla-cql-core", functions=["scylla-cql-core/src/serialize/value.rs:SerializeValue for " + t, "scylla-cql-core/src/deserialize/value.rs:DeserializeValue for " + t])
+        for t in ("i8", "i16", "i32", "i64", "bool", "f32", "f64", "counter", "date", "time", "timestamp", "uuid", "timeuuid")
+    ] + [
+        Harness("c17_canary_string_reads_blob", "C17.kani.canary", "PROVED-C", "a false claim must be refuted", crate="scylla-cql-core", carries=False, canary=True),
     ],
-    "trusted_base": ["Verus/Z3 soundness", "SerializeValue::serialize trait contract (assumed for impls)", "Vec::resize truncation", "i32::to_be_bytes"],
+    "trusted_base": ["error-renaming helpers typck_error_replace_rust_name / fix_rust_name_in_err stubbed by identity in the matrix harnesses (type Error -> Error: cannot change accept/refuse)", "parametricity of the generic container impls in their element type (checked with i32/String elements)", "Verus/Z3 soundness", "SerializeValue::serialize trait contract (assumed for impls)", "Vec::resize truncation", "i32::to_be_bytes"],
     "assumptions": [],
-    "not_covered": ["type-check matrix (pending)", "third-party impls of SerializeValue"],
+    "not_covered": ["carriers behind optional cargo features (chrono, time, num-bigint, bigdecimal, secrecy)", "container carriers (Vec/HashMap/tuples/Option/Box...) delegating to their element's type check: their error-rewriting paths exceed CBMC here (measured >15 GB)", "third-party impls of SerializeValue"],
 }
